@@ -118,7 +118,7 @@ class HeapGen:
             b = r.choice(self.VARS)
             op = r.weighted([('alias', 3), ('copy', 2), ('plus', 2), ('minus', 1), ('selrange', 2), ('apply', 1), ('filter', 1),
                              ('set', 4), ('pushBack', 4), ('pushBackUnique', 2), ('append', 3), ('deleteAt', 3), ('resize', 2),
-                             ('reverse', 2), ('selfins', 4), ('nest', 3), ('deeplit', 2), ('deepmut', 4)])
+                             ('reverse', 2), ('selfins', 4), ('nest', 3), ('deeplit', 2), ('deepmut', 4), ('freshlit', 3)])
             self.note(op)
             A, Bv = env[a], env[b]
             if op == 'alias':
@@ -184,6 +184,24 @@ class HeapGen:
             elif op == 'reverse':
                 A.reverse()
                 stmts.append('reverse %s' % a)
+            elif op == 'freshlit':
+                # the same array literal evaluated more than once (function called twice, loop body) yields a fresh array
+                # each time: what an earlier evaluation's array was given later is not in the next one
+                lit = r.choice(['[]', '[]', '[7]', '[[]]'])
+                base = {'[]': [], '[7]': [7], '[[]]': [[]]}[lit]
+                if r.chance(1, 2):
+                    n1, n2 = r.below(9), r.below(9)
+                    env[a] = copy_deep(base) + [n1]
+                    stmts.append('gf = { private _r = %s; _r pushBack _this; _r }; %s = %d call gf' % (lit, a, n1))
+                    if b != a:
+                        env[b] = copy_deep(base) + [n2]
+                        stmts.append('%s = %d call gf' % (b, n2))
+                    self.note('freshlit:function')
+                else:
+                    k = 2 + r.below(2)
+                    env[a] = [copy_deep(base) + [i] for i in range(k)]
+                    stmts.append('%s = []; for "_i" from 0 to %d do { private _e = %s; _e pushBack _i; %s pushBack _e }' % (a, k - 1, lit, a))
+                    self.note('freshlit:loop')
             elif op == 'deeplit':
                 n1, n2, n3 = r.below(9), r.below(9), r.below(9)
                 env[a] = [[[n1], n2], [n3]]
@@ -461,6 +479,8 @@ ALPHABET = [
     # strings that differ only in bit 0x20 of a character that is not a letter ([ {, @ `, ^ ~), and letters from the end
     # of the alphabet: ignoring case must not identify the former and must identify the latter
     ('"[x]"', '[x]'), ('"{x}"', '{x}'), ('"a@b"', 'a@b'), ('"a`b"', 'a`b'), ('"^"', '^'), ('"~"', '~'), ('"Zz"', 'Zz'), ('"zZ"', 'zZ'),
+    # neighbouring single-precision values (one unit in the last place apart): different numbers, different keys
+    ('1.0000001', 1.0000001), ('1.0000002', 1.0000002), ('16777216', 16777216), ('16777218', 16777218), ('[1.0000001]', [1.0000001]),
 ]
 
 
@@ -486,7 +506,7 @@ class MapGen:
             return fmt_val(v)
         for _ in range(4 + r.below(12)):
             h = r.choice(['h1', 'h2'])
-            op = r.weighted([('set', 6), ('get', 5), ('in', 3), ('count', 2), ('delete', 3), ('copy', 2), ('fromarray', 1), ('fromarray_dup', 2), ('keys', 2), ('alias', 2)])
+            op = r.weighted([('set', 6), ('get', 5), ('in', 3), ('count', 2), ('delete', 3), ('copy', 2), ('fromarray', 1), ('fromarray_dup', 2), ('keys', 2), ('alias', 2), ('mutkey', 3)])
             self.note(op)
             D = maps[h]
             if op == 'set':
@@ -547,6 +567,44 @@ class MapGen:
                 stmts.append('k = [1]; %s set [k, %d]; k pushBack 2' % (h, val))
                 exp.append('[%d,%s,%d]' % (val, 'nil' if key_of([1, 2]) not in D else str(D[key_of([1, 2])]), len(D)))
                 stmts.append('tr pushBack [%s get [1], %s get [1,2], count %s]' % (h, h, h))
+            elif op == 'mutkey':
+                # an array object that has served as a key (looked up, or inserted: the map keeps its own copy) is changed
+                # in place without changing its length, or through an array nested in it, and serves as a key again: it
+                # is the key its present content denotes
+                a, b, c = r.below(3), r.below(3), 3 + r.below(3)
+                v0, v1 = r.below(100), r.below(100)
+                nested = r.chance(1, 2)
+                before = [[a], b] if nested else [a, b]
+                after = [[a, c], b] if nested else [c, b]
+                name = 'k%d' % len(stmts)
+                if nested:
+                    stmts.append('kin = [%d]; %s = [kin, %d]' % (a, name, b))
+                else:
+                    stmts.append('%s = [%d, %d]' % (name, a, b))
+                pre = r.weighted([('get', 3), ('in', 2), ('set', 2), ('delete', 1)])
+                self.note('mutkey:' + pre + (':nested' if nested else ''))
+                if pre == 'get':
+                    got = D.get(key_of(before))
+                    exp.append('[%s]' % ('nil' if got is None else str(got)))
+                    stmts.append('tr pushBack [%s get %s]' % (h, name))
+                elif pre == 'in':
+                    exp.append('true' if key_of(before) in D else 'false')
+                    stmts.append('tr pushBack (%s in %s)' % (name, h))
+                elif pre == 'set':
+                    D[key_of(before)] = v0
+                    stmts.append('%s set [%s, %d]' % (h, name, v0))
+                else:
+                    got = D.pop(key_of(before), None)
+                    exp.append('[%s]' % ('nil' if got is None else str(got)))
+                    stmts.append('tr pushBack [%s deleteAt %s]' % (h, name))
+                stmts.append('kin pushBack %d' % c if nested else '%s set [0, %d]' % (name, c))
+                D[key_of(after)] = v1
+                lit = '[[%d,%d],%d]' % (a, c, b) if nested else '[%d,%d]' % (c, b)
+                stmts.append('%s set [%s, %d]' % (h, lit, v1))
+                got_before = D.get(key_of(before))
+                exp.append('[%d,true,%s,%d]' % (v1, 'nil' if got_before is None else str(got_before), len(D)))
+                blit = '[[%d],%d]' % (a, b) if nested else '[%d,%d]' % (a, b)
+                stmts.append('tr pushBack [%s get %s, %s in %s, %s get %s, count %s]' % (h, name, name, h, h, blit, h))
         return '; '.join(stmts), '[' + ','.join(exp) + ']'
 
 
